@@ -126,6 +126,11 @@ func (e *Env) resolveType(name string) types.Type {
 	if strings.HasPrefix(name, "[]") {
 		return types.NewSlice(e.resolveType(name[2:]))
 	}
+	if strings.HasPrefix(name, "map[") {
+		if i := strings.Index(name, "]"); i > 0 {
+			return types.NewMap(e.resolveType(name[4:i]), e.resolveType(name[i+1:]))
+		}
+	}
 	if b, ok := basicByName[name]; ok {
 		return b
 	}
